@@ -37,6 +37,7 @@ fn lookups(store: &AnnotationStore, s: &str) -> Sx {
 
 impl Ctx {
     pub fn new() -> Self {
+        crate::storegen::BANG_NAMES.store(true, std::sync::atomic::Ordering::Relaxed);
         Ctx {}
     }
     pub fn exec(&self, req: &Sx) -> (Sx, Vec<Sx>, bool) {
@@ -79,6 +80,15 @@ pub fn string_pool(rng: &mut Rng) -> Vec<String> {
             v.push(format!("!{}{}", letter, n));
         }
     }
+    // tokens 4 and 5 carry ids that begin like a temporary id of their own kind (and their near misses)
+    for letter in ["A", "R", "S", "K", "D"] {
+        for n in ["4", "5", "3", "04", "", "4 ", "45"] {
+            v.push(format!("!{}x{}", letter, n));
+        }
+    }
+    for s2 in ["!ax4", "!Bx4", "!A x4", "!Ax+4", "a4", "r5", "s4", "k5", "d4"] {
+        v.push(s2.to_string());
+    }
     for s in ["", "!", "!!", "!A", "a", "a00", "a+1", "A0", "default-annotationset", "é", "!😀1", "\u{0}", "r0 ", " r0", "s0\n"] {
         v.push(s.to_string());
     }
@@ -113,5 +123,5 @@ pub fn generate(out: &mut Out, tier: &str, seed: u64) {
     }
 }
 
-pub const RULE: &str = "seeded random histories as in C01/C02 (adds with duplicate ids, id-less items, removals), optionally followed by strip_annotation_ids, strip_data_ids or reindex (compaction); then ~330 lookup strings: every id token in use or removed for each kind, '!X<n>' for 12 letters (the five kind letters, other capitals, lower case, multi-byte and non-BMP capitals, digit, space) x 23 numerals (small, leading zero, signs, spaces, trailing junk, empty, around 2^16, 2^32, 2^64 and beyond, non-ASCII digits), degenerate strings, arbitrary Unicode and random strings; each looked up through annotation(), resource(), dataset() and in every dataset key(), annotationdata(), under catch_unwind. One evaluation = one string (all kinds). distinct = distinct histories.";
+pub const RULE: &str = "seeded random histories as in C01/C02 (adds with duplicate ids, id-less items, removals), optionally followed by strip_annotation_ids, strip_data_ids or reindex (compaction); then ~380 lookup strings (the ids of tokens 4 and 5 begin like a temporary id of their own kind: '!Ax4', '!Rx5', ...): every id token in use or removed for each kind, '!X<n>' for 12 letters (the five kind letters, other capitals, lower case, multi-byte and non-BMP capitals, digit, space) x 23 numerals (small, leading zero, signs, spaces, trailing junk, empty, around 2^16, 2^32, 2^64 and beyond, non-ASCII digits), degenerate strings, arbitrary Unicode and random strings; each looked up through annotation(), resource(), dataset() and in every dataset key(), annotationdata(), under catch_unwind. One evaluation = one string (all kinds). distinct = distinct histories.";
 pub const EXHAUSTIVE: bool = false;
